@@ -1,7 +1,18 @@
-(* C14 - swap network: pairs once, adjacent, reversal, for every n <= 40 and both offsets. *)
+(* C14 - swap network: pairs once, adjacent, reversal: for EVERY n and both offsets ([F]), and re-checked
+   by complete evaluation for n <= 40 ([B]). *)
 From Coq Require Import Arith List Bool.
-From OFV Require Import Model.SwapNetwork Thm.C14.SwapNetworkB.
+From OFV Require Import Model.SwapNetwork Thm.C14.SwapNetworkB Thm.C14.SwapNetworkF.
 Import ListNotations.
 Theorem C14_swap_network_ok_40 : forallb (fun n => swap_network_ok n false && swap_network_ok n true) (seq 0 41) = true.
 Proof. exact swap_network_ok_40. Qed.
 Print Assumptions C14_swap_network_ok_40.
+
+(* [F] every number of modes, both offsets: the final order is the reversal, every callback acts on
+   adjacent positions i, i+1 < n, and every unordered pair of distinct modes meets exactly once *)
+Theorem C14_swap_network_correct : forall n offset,
+  let '(final, ev) := swap_network n offset in
+  final = rev (seq 0 n) /\
+  (forall p q i, In (p, q, i) ev -> S i < n) /\
+  (forall a b, a < n -> b < n -> a <> b -> pair_count a b ev = 1).
+Proof. exact swap_network_correct. Qed.
+Print Assumptions C14_swap_network_correct.
